@@ -277,6 +277,12 @@ def _pure_lit(e):
         return True
     if isinstance(e, ast.Attribute):
         return _pure_lit(e.value)
+    # string building from pure pieces: f"rId{n}", "rId%d" % n, a + b
+    if isinstance(e, ast.JoinedStr):
+        return all(isinstance(v, ast.Constant) or (isinstance(v, ast.FormattedValue) and _pure_lit(v.value) and (
+            v.format_spec is None or _pure_lit(v.format_spec))) for v in e.values)
+    if isinstance(e, ast.BinOp) and isinstance(e.op, (ast.Mod, ast.Add)):
+        return _pure_lit(e.left) and _pure_lit(e.right)
     return False
 
 
@@ -353,6 +359,17 @@ class _Functional(ast.NodeTransformer):
         if isinstance(fn, ast.Call) and (ast.unparse(fn.func) in ("attrgetter", "operator.attrgetter")) and len(fn.args) == 1 \
                 and isinstance(fn.args[0], ast.Constant) and isinstance(fn.args[0].value, str) and fn.args[0].value.isidentifier():
             return ast.Attribute(value=arg, attr=fn.args[0].value, ctx=ast.Load())
+        # attrgetter("a" if c else "b")(x)  ->  x.a if c else x.b
+        if isinstance(fn, ast.Call) and (ast.unparse(fn.func) in ("attrgetter", "operator.attrgetter")) and len(fn.args) == 1 \
+                and isinstance(fn.args[0], ast.IfExp) and all(isinstance(x, ast.Constant) and isinstance(x.value, str) and x.value.isidentifier()
+                                                               for x in (fn.args[0].body, fn.args[0].orelse)) \
+                and isinstance(arg, (ast.Name, ast.Attribute)):
+            ie = fn.args[0]
+            return ast.IfExp(test=ie.test, body=ast.Attribute(value=copy.deepcopy(arg), attr=ie.body.value, ctx=ast.Load()),
+                             orelse=ast.Attribute(value=copy.deepcopy(arg), attr=ie.orelse.value, ctx=ast.Load()))
+        # a bound membership test as predicate: X.__contains__(v)  ->  v in X
+        if isinstance(fn, ast.Attribute) and fn.attr == "__contains__":
+            return ast.Compare(left=arg, ops=[ast.In()], comparators=[fn.value])
         if isinstance(fn, ast.Lambda) and len(fn.args.args) == 1 and not fn.args.defaults:
             p = fn.args.args[0].arg
 
@@ -366,11 +383,12 @@ class _Functional(ast.NodeTransformer):
 
     def visit_Call(self, node):
         self.generic_visit(node)
-        # operator.attrgetter("a")(x)  ->  x.a
+        # operator.attrgetter("a")(x)  ->  x.a   (also with a conditional name)
         if isinstance(node.func, ast.Call) and ast.unparse(node.func.func) in ("attrgetter", "operator.attrgetter") and len(node.func.args) == 1 \
-                and isinstance(node.func.args[0], ast.Constant) and isinstance(node.func.args[0].value, str) and node.func.args[0].value.isidentifier() \
                 and len(node.args) == 1 and not node.keywords:
-            return ast.copy_location(ast.Attribute(value=node.args[0], attr=node.func.args[0].value, ctx=ast.Load()), node)
+            r_ = self._apply(node.func, node.args[0])
+            if r_ is not None and not isinstance(r_, ast.Call):
+                return ast.copy_location(r_, node)
         d = ast.unparse(node.func)
         if d in ("map", "filter", "itertools.filterfalse", "filterfalse") and len(node.args) == 2 and not node.keywords:
             _Functional.n += 1
